@@ -50,6 +50,19 @@ def run(tier, replay=None):
                 rid = f"{s['id']}.{reader}"
                 seqs[rid] = (s, reader)
                 rows.append([rid, 'W.stream', version, d, reader, 'enc:' + key, names if reader == 'expect' else '-', stream])
+    # bodies beyond 64 KiB (only the Wrath server header can say so): [small, elastic message of n elements, small]
+    for c in S.elastic_messages(corpus, 'wrath', 'server'):
+        small = sorted((v for v in pool.get(('wrath', 'server'), []) if 8 < len(v['hex']) // 2 < 40 and not v.get('payloads')), key=lambda v: v['id'])[:1]
+        w = S.ELEM_WIDTH[c.raw['members'][1]['ty']]
+        ns = sorted({(0x10000 - 4) // w - 1, (0x10000 - 4) // w, (0x10000 - 4) // w + 1, 80000 // w, (0x20000 - 4) // w + 1} | ({(0x7FFF00 - 4) // w} if tier == 'thorough' else set()))
+        for n in ns if small else []:
+            s = {'id': f'big.{c.name}.{n}', 'version': 'wrath', 'dir': 'server', 'key': key, 'frames': [small[0], S.elastic_vector(corpus, 'wrath', 'server', c, n), small[0]]}
+            stream = ''.join(v['hex'] for v in s['frames'])
+            names = ','.join(v['object'] for v in s['frames'])
+            for reader in ('enum', 'expect'):
+                rid = f"{s['id']}.{reader}"
+                seqs[rid] = (s, reader)
+                rows.append([rid, 'W.stream', 'wrath', 'server', reader, 'enc:' + key, names if reader == 'expect' else '-', stream])
     ev = common.run_driver(binary, rows, 'c05', timeout=60)
     encrypted_equal_headers = 0
     for rid, (s, reader) in seqs.items():
@@ -98,7 +111,9 @@ def run(tier, replay=None):
             if why is None:
                 why = S.judge_stream(s, e.get('msgs') or [], frame_lens=flens)
         chk.count(f'{reader}:' + ('ok' if why is None else 'bad'))
-        shape = (len(s['frames']), sum(1 for v in s['frames'] if len(v['hex']) // 2 > 0x7FFF), sum(1 for v in s['frames'] if v.get('payloads')))
+        shape = (len(s['frames']), sum(1 for v in s['frames'] if len(v['hex']) // 2 > 0x7FFF), sum(1 for v in s['frames'] if len(v['hex']) // 2 > 0xFFFF), sum(1 for v in s['frames'] if v.get('payloads')))
+        if rid.startswith('big.'):
+            shape = shape + (s['frames'][1]['object'], len(s['frames'][1]['hex']) // 2)
         if why is None:
             chk.ok((s['version'], s['dir'], reader, s['key'][:8], shape),
                    sample={'id': rid, 'key': s['key'][:16] + '..', 'objects': [v['object'] for v in s['frames']][:8], 'enc_head': str(e.get('enc') or e.get('enc_head'))[:24]})
